@@ -38,6 +38,9 @@ CONFIGS = {
     "K20": dict(lend=None, fee=(1, 0), liq=None, init=(("USD", 1000), ("BTC", 5)), bp=0, qp=2),
     # an initial balance that is not a multiple of the symbol precision (shortages of auto-borrow orders are then off-grid)
     "K21": dict(lend=dict(req="0.5", isym="USD", period=10), fee=None, liq=None, init=(("USD", "300.005"), ("BTC", 1)), bp=0, qp=2),
+    # per-symbol margin requirements: ETH needs no collateral, everything else 50%
+    "K22": dict(lend=dict(req="0.5", isym="same", period=10, req_by_symbol={"ETH": "0"}), fee=None, liq=None, init=(("USD", 300),),
+                bp=0, qp=2, pairs=2),
     "K14": dict(lend=dict(req="0.5", isym="same", period=7, pct="2.5"), fee=(1, 0), liq=(25, 10),
                 init=(("USD", 500), ("BTC", 2)), bp=2, qp=2),
 }
